@@ -79,7 +79,7 @@ func decodeCborLinkListFromAny(maybeList any) (List__Link, error) {
 				return nil, fmt.Errorf("expected cbor tag content to be []byte, got %T", rawTag.Content)
 			}
 			// the tag content is the _cid.Cid, after the first byte
-			_, _cid, err := cid.CidFromBytes(rawBytes[1:])
+			_, _cid, err := cid.CidFromBytes(linkBytes(rawBytes))
 			if err != nil {
 				return nil, fmt.Errorf("failed to cast cbor tag content to cid.Cid: %w", err)
 			}
@@ -340,7 +340,11 @@ func (x *Block) UnmarshalCBOR(data []byte) error {
 	}
 	// fifth is the meta SlotMeta
 	if meta, ok := arr.Get(4); ok {
-		metaArr := _array(meta.([]interface{}))
+		metaList, ok := meta.([]interface{})
+		if !ok {
+			return fmt.Errorf("expected meta to be []interface{}, got %T", meta)
+		}
+		metaArr := _array(metaList)
 		var m SlotMeta
 		if parentSlot, ok := metaArr.Get(0); ok {
 			parentSlot, err := getUint64FromInterface(parentSlot)
@@ -389,7 +393,7 @@ func (x *Block) UnmarshalCBOR(data []byte) error {
 		if !ok {
 			return fmt.Errorf("expected cbor tag content to be []byte, got %T", rawTag.Content)
 		}
-		_, _cid, err := cid.CidFromBytes(rawBytes[1:])
+		_, _cid, err := cid.CidFromBytes(linkBytes(rawBytes))
 		if err != nil {
 			return fmt.Errorf("failed to cast cbor tag content to cid.Cid: %w", err)
 		}
@@ -475,7 +479,11 @@ func (x *Rewards) UnmarshalCBOR(data []byte) error {
 	}
 	// third is the data DataFrame
 	if data, ok := arr.Get(2); ok {
-		dataArr := _array(data.([]interface{}))
+		dataList, ok := data.([]interface{})
+		if !ok {
+			return fmt.Errorf("expected data to be []interface{}, got %T", data)
+		}
+		dataArr := _array(dataList)
 		var d DataFrame
 		if err := d.fromCBORArray(dataArr); err != nil {
 			return fmt.Errorf("failed to decode metadata: %w", err)
@@ -537,7 +545,10 @@ func (x *Entry) UnmarshalCBOR(data []byte) error {
 	}
 	// third is the hash Hash
 	if hash, ok := arr.Get(2); ok {
-		h := hash.([]byte)
+		h, ok := hash.([]byte)
+		if !ok {
+			return fmt.Errorf("expected hash to be []byte, got %T", hash)
+		}
 		x.Hash = h
 	} else {
 		return fmt.Errorf("expected hash to be present")
@@ -602,7 +613,11 @@ func (x *Transaction) UnmarshalCBOR(data []byte) error {
 	}
 	// second is the data DataFrame
 	if data, ok := arr.Get(1); ok {
-		dataArr := _array(data.([]interface{}))
+		dataList, ok := data.([]interface{})
+		if !ok {
+			return fmt.Errorf("expected data to be []interface{}, got %T", data)
+		}
+		dataArr := _array(dataList)
 		var d DataFrame
 		if err := d.fromCBORArray(dataArr); err != nil {
 			return fmt.Errorf("failed to decode metadata: %w", err)
@@ -613,7 +628,11 @@ func (x *Transaction) UnmarshalCBOR(data []byte) error {
 	}
 	// third is the metadata DataFrame
 	if metadata, ok := arr.Get(2); ok {
-		metaArr := _array(metadata.([]interface{}))
+		metadataList, ok := metadata.([]interface{})
+		if !ok {
+			return fmt.Errorf("expected metadata to be []interface{}, got %T", metadata)
+		}
+		metaArr := _array(metadataList)
 		var m DataFrame
 		if err := m.fromCBORArray(metaArr); err != nil {
 			return fmt.Errorf("failed to decode metadata: %w", err)
@@ -778,4 +797,13 @@ func (x *DataFrame) fromCBORArray(arr _array) error {
 		x.Next = &next_ptr
 	}
 	return nil
+}
+
+// linkBytes strips the multibase identity prefix from the content of a CBOR link tag.
+// (An empty content is left to cid.CidFromBytes to reject.)
+func linkBytes(rawBytes []byte) []byte {
+	if len(rawBytes) == 0 {
+		return rawBytes
+	}
+	return rawBytes[1:]
 }
